@@ -73,17 +73,18 @@ type c03Handler struct {
 }
 
 type c03Scenario struct {
-	Verbs      []string                `json:"verbs"`     // verb of each line; "001" marks the welcome
-	LongAt     int                     `json:"long_at"`   // index of a line padded beyond 4096 bytes, -1 none
-	Handlers   map[string][]c03Handler `json:"handlers"`  // per verb
-	Cuts       []int                   `json:"cuts"`      // segmentation of the phase-1 byte stream
-	Unread     int                     `json:"unread"`    // trailing lines sent right before the disconnect
-	Cause      string                  `json:"cause"`     // eof, readerr, close
+	Verbs      []string                `json:"verbs"`    // verb of each line; "001" marks the welcome
+	LongAt     int                     `json:"long_at"`  // index of a line padded beyond 4096 bytes, -1 none
+	Handlers   map[string][]c03Handler `json:"handlers"` // per verb
+	Cuts       []int                   `json:"cuts"`     // segmentation of the phase-1 byte stream
+	Unread     int                     `json:"unread"`   // trailing lines sent right before the disconnect
+	Cause      string                  `json:"cause"`    // eof, readerr, close
 	Procs      int                     `json:"gomaxprocs"`
 	WelcomeNew bool                    `json:"welcome_new_nick"`
 }
 
-var c03Verbs = []string{"PRIVMSG", "NOTICE", "372", "CUSTOM"}
+// message verbs, a numeric, an unknown verb, and verbs that also have built-in internal handlers
+var c03Verbs = []string{"PRIVMSG", "NOTICE", "372", "CUSTOM", "PING", "CAP", "433", "NICK"}
 
 func genC03(t *rapid.T) *c03Scenario {
 	sc := &c03Scenario{LongAt: -1, Handlers: map[string][]c03Handler{}}
